@@ -240,6 +240,7 @@ def munge(trace_path, munged_path):
     call line; collect crash reports.  Pure bookkeeping on identifiers the
     executor wrote itself."""
     idx = {}
+    ops = {}
     crashes, nlines, ended = [], 0, False
     with open(trace_path) as fi, open(munged_path, 'w') as fo:
         for line in fi:
@@ -262,6 +263,9 @@ def munge(trace_path, munged_path):
             if e in ('reset', 'pre', 'call') and sid is not None:
                 idx[(x, int(sid))] = nlines
             if e == 'call':
+                mo = re.search(r'"chk":true,"c":\{"op":"(\w+)"', line)
+                if mo:
+                    ops[mo.group(1)] = ops.get(mo.group(1), 0) + 1
                 pl = idx.get((x, int(psid)))
                 if pl is None:
                     raise MachineryError('no pre line for %s' % line[:200])
@@ -273,7 +277,7 @@ def munge(trace_path, munged_path):
                     d['pl'] = idx.get((d['x'], d['psid']))
                     crashes.append(d)
             fo.write(line + '\n')
-    return dict(lines=nlines, crashes=crashes, ended=ended)
+    return dict(lines=nlines, crashes=crashes, ended=ended, ops=ops)
 
 
 def path_of_line(lines, lineno):
@@ -351,9 +355,11 @@ def exec_and_validate(variant, scripts, props, workdir, tag, exe_name='ovm_exec'
         return dict(script=sp, trace=mg, info=info, val=v, err=raw + '.err')
     with ThreadPoolExecutor(max_workers=NCPU) as ex:
         res = list(ex.map(one, range(len(scripts))))
-    agg = dict(lines=0, checked=0, bad=0, drift=0, failures=[], crashes=[], drifts=[], shards=res)
+    agg = dict(lines=0, checked=0, bad=0, drift=0, failures=[], crashes=[], drifts=[], shards=res, ops={})
     for r in res:
         d = r['val']['done']
+        for k_, v_ in r['info'].get('ops', {}).items():
+            agg['ops'][k_] = agg['ops'].get(k_, 0) + v_
         agg['lines'] += d['lines']; agg['checked'] += d['checked']; agg['bad'] += d['bad']; agg['drift'] += d['drift']
         lines = None
         for b in r['val']['bads']:
